@@ -156,7 +156,7 @@ fn loss_strategy() -> impl Strategy<Value = f64> {
 
 fn fb_strategy() -> impl Strategy<Value = Fb> {
     (
-        prop_oneof![2 => Just(0u32), 4 => 1u32..300, 2 => 300u32..5000, 1 => 5000u32..120_000],
+        prop_oneof![4 => Just(0u32), 8 => 1u32..300, 4 => 300u32..5000, 2 => 5000u32..120_000, 2 => 120_000u32..2_000_000],
         prop_oneof![2 => Just(0u32), 3 => 1u32..20_000, 3 => any::<u32>(), 1 => Just(u32::MAX), 2 => 20_000u32..20_000_000],
         loss_strategy(),
         any::<bool>(),
@@ -226,7 +226,7 @@ impl Check for C14 {
     }
 
     fn rule(&self) -> String {
-        "case = (ceiling >= 1472 B/s, sequence of notify_frame_sent / step(dt, optional feedback{rtt sample 0..120 s, receive rate 0..2^32-1, loss rate 0..1, rate-limited flag})) driven directly into SendRateComp; about one case in 3000 (they cost a thousand times more) is an Endpoints case instead: a real Client and Server whose max_send_rate, max_receive_rate and max_receive_alloc are generated independently exchange Reliable bursts over a link that loses every n-th datagram or none, and after every step the allowed send rate of each side must lie between the s/64 floor and the configured ceiling of its direction, min(own max_send_rate, the peer's max_receive_rate); non-trivial (direct cases) = the history reaches equation mode (a feedback reported loss) and contains at least one no-feedback step that changed the rate or the RTO (an expiry); distinct = distinct serialised case".into()
+        "case = (ceiling >= 1472 B/s, sequence of notify_frame_sent / step(dt, optional feedback{rtt sample 0..120 s, now and then up to 2000 s (an application that was suspended with frames waiting in its socket measures such samples; beyond 2000 s the equation cannot be inverted for rates near 2^32 B/s any more), receive rate 0..2^32-1, loss rate 0..1, rate-limited flag})) driven directly into SendRateComp; about one case in 3000 (they cost a thousand times more) is an Endpoints case instead: a real Client and Server whose max_send_rate, max_receive_rate and max_receive_alloc are generated independently exchange Reliable bursts over a link that loses every n-th datagram or none, and after every step the allowed send rate of each side must lie between the s/64 floor and the configured ceiling of its direction, min(own max_send_rate, the peer's max_receive_rate); non-trivial (direct cases) = the history reaches equation mode (a feedback reported loss) and contains at least one no-feedback step that changed the rate or the RTO (an expiry); distinct = distinct serialised case".into()
     }
 
     fn assumptions(&self) -> Vec<String> {
